@@ -14,6 +14,7 @@ import (
 	"github.com/Trendyol/go-dcp/couchbase"
 	"github.com/Trendyol/go-dcp/helpers"
 	"github.com/Trendyol/go-dcp/membership"
+	"github.com/Trendyol/go-dcp/models"
 	"github.com/Trendyol/go-dcp/servicediscovery"
 	"github.com/Trendyol/go-dcp/stream"
 	"github.com/asaskevich/EventBus"
@@ -883,6 +884,8 @@ func init() {
 				t := 2 + rng.Intn(5)
 				out = append(out, drv.Scenario{Kind: "follower", Seed: seed, Params: mustJSON(c10Params{FollowerNumbering: [2]int{2 + rng.Intn(t-1), t}}), TimeoutS: 90, Solo: true})
 			}
+			// the rpc layer between a leader and its followers (real server, real clients over loopback tcp)
+			out = append(out, drv.Scenario{Kind: "rpc", Seed: seed, Params: mustJSON(c10Params{}), TimeoutS: 90, Solo: true})
 			for i := 0; i < 3; i++ {
 				t := 2 + rng.Intn(6)
 				out = append(out, drv.Scenario{Kind: "dynamic-window", Seed: seed, Params: mustJSON(c10Params{DynamicWindow: [2]int{1 + rng.Intn(t), t}}), TimeoutS: 60})
@@ -901,6 +904,8 @@ func init() {
 				return c10RunLeader(sc, &p)
 			case "follower":
 				return c10RunFollower(sc, &p)
+			case "rpc":
+				return c10RunRPC(sc)
 			case "dynamic-api":
 				// a complete client with dynamic membership: the first PUT /membership/info admits it (its stream opens on that chunk)
 				sp := &SessSpec{NumVB: 4, Nodes: 1, PNow: 1, Backend: "mem", Membership: "dynamic", FirstInfo: p.FollowerNumbering, API: true,
@@ -941,4 +946,93 @@ func init() {
 			return drv.Result{Verdict: drv.Inconclusive, Detail: "child ended: " + drv.PanicLine(out.Stderr)}
 		},
 	})
+}
+
+// c10RunRPC: the rpc layer the leader-assigned mechanism rides on.
+// (a) every success / failure pattern of the attempts of one rpc call (helpers.Retry is what Ping, Register and Rebalance go
+// through): the call succeeds iff one of its attempts does, and stops at the first success;
+// (b) a follower that the leader cannot call back (nothing listens on the follower's address) asks the leader's real rpc
+// server to register it through the library's real client: either the request fails - the follower then knows it is not
+// in the group - or the leader lists it. Being told "registered" while the leader does not list it leaves an instance
+// outside the group for good (it never registers again).
+func c10RunRPC(sc drv.Scenario) drv.Result {
+	hx.QuietLogger()
+	res := drv.Result{Verdict: drv.Held, Events: map[string]int{}, Nontrivial: true, TraceHash: drv.Hash("rpc")}
+	viol := func(clause, detail string) drv.Result {
+		res.Verdict, res.Clause, res.FindingKey, res.Detail = drv.Violated, clause, "C10/rpc/"+clause, detail
+		return res
+	}
+	for n := 1; n <= 4; n++ {
+		for pat := 0; pat < 1<<n; pat++ {
+			calls := 0
+			err := helpers.Retry(func() error {
+				k := calls
+				calls++
+				if pat&(1<<k) != 0 {
+					return nil
+				}
+				return fmt.Errorf("attempt %d failed", k+1)
+			}, n, time.Millisecond)
+			first := -1
+			for k := 0; k < n; k++ {
+				if pat&(1<<k) != 0 {
+					first = k
+					break
+				}
+			}
+			res.Checks++
+			desc := ""
+			for k := 0; k < n; k++ {
+				if pat&(1<<k) != 0 {
+					desc += "S"
+				} else {
+					desc += "F"
+				}
+			}
+			if first >= 0 && err != nil {
+				return viol("retry", fmt.Sprintf("attempts %s of an rpc call (up to %d): attempt %d succeeded, the call reports %v - a follower that answered is taken for dead", desc, n, first+1, err))
+			}
+			if first < 0 && err == nil {
+				return viol("retry", fmt.Sprintf("attempts %s of an rpc call (up to %d): every attempt failed, the call reports success", desc, n))
+			}
+			want := n
+			if first >= 0 {
+				want = first + 1
+			}
+			if calls != want {
+				return viol("retry", fmt.Sprintf("attempts %s of an rpc call (up to %d): %d attempts were made, expected %d", desc, n, calls, want))
+			}
+		}
+	}
+	port := hx.FreePort()
+	cfg := &config.Dcp{}
+	cfg.Dcp.Group.Membership.RebalanceDelay = 10 * time.Millisecond
+	bus := EventBus.New()
+	sd := servicediscovery.NewServiceDiscovery(cfg, bus)
+	sd.BeLeader()
+	leader := &models.Identity{IP: "127.0.0.1", Name: "leader", ClusterJoinTime: time.Now().UnixNano()}
+	srv := servicediscovery.NewServer(port, leader, sd)
+	srv.Listen()
+	defer srv.Shutdown()
+	// a tcp connection to the broadcast address is refused by the local stack at once, on any host: the leader cannot call this follower back
+	fol := &models.Identity{IP: "255.255.255.255", Name: "pod-unreachable", ClusterJoinTime: time.Now().UnixNano()}
+	cl, err := servicediscovery.NewClient(port, fol, leader)
+	if err != nil {
+		return drv.Result{Verdict: drv.Inconclusive, Detail: "cannot reach the leader's rpc server: " + err.Error()}
+	}
+	defer cl.Close()
+	rerr := cl.Register()
+	listed := false
+	for _, n := range sd.GetAll() {
+		if n == fol.Name {
+			listed = true
+		}
+	}
+	res.Checks++
+	res.Events["rpc_register"] = 1
+	res.Sample = map[string]any{"kind": "rpc", "retry_patterns": res.Checks - 1, "register_error": fmt.Sprint(rerr), "leader_lists_follower": listed}
+	if rerr == nil && !listed {
+		return viol("register", "a follower the leader could not call back was told its registration succeeded (Register() returned nil) although the leader does not list it: it never registers again and never receives a numbering")
+	}
+	return res
 }
